@@ -2,7 +2,7 @@
 From Coq Require Import Reals Lra Psatz String List Bool.
 From PFV Require Import OField KOps Limiters LimiterSpec.
 Import ListNotations.
-Open Scope R_scope.
+Local Open Scope R_scope.
 
 Lemma b2k_R b : b2k ROps b = if b then 1 else 0.
 Proof. reflexivity. Qed.
